@@ -420,7 +420,7 @@ fn gen_dir(rng: &mut Rng, r: &mut Report, store: &Path) -> DirSpec {
 		maps.push(m);
 	}
 	for k in counts { r.count(&k); }
-	let mut good = maps.iter().all(tdiff::good);
+	let mut good = tdiff::good(&maps[0]) && maps[1..].iter().all(tdiff::good_step);
 	let mut confluent = true;
 	let mut kind = shape.kind;
 	let mut files = vec![];
